@@ -20,8 +20,8 @@ import (
 func init() {
 	core.Register(&core.Simple{
 		Id: "C14", Lvl: "exploration", Quick: 24, Thorough: 600, PerBatch: 6, Width: 3, Race: true, Timeout: 1500,
-		RuleText: "each case runs the real processOutbox and connection loops in a race-detector build with 4-24 clients, each driven by 2-4 concurrent sender goroutines issuing 40-120 requests with large replies (message board of 20-60 KiB, file lists of 100-600 entries, user lists, news lists, file info) mixed with broadcast traffic (public chat, user-info changes, board posts); the client side of every connection records each Write call as one atomic chunk (TCP semantics) and yields or sleeps at random before recording, so writes of different transactions to one client can overlap; at hook-based quiescence the reference decoder re-frames every client's byte stream, a ledger checks that every reply carries the id of an unanswered request sent on that connection, and every always-answered request has exactly one reply. distinct = (clients, senders, board size class, observed multi-chunk frames > 0); non-trivial = run delivered at least one frame larger than the 32 KiB copy buffer",
-		Case: runCase,
+		RuleText: "each case runs the real processOutbox and connection loops in a race-detector build with 4-24 clients, each driven by 2-4 concurrent sender goroutines issuing 40-120 requests with large replies (message board of 20-60 KiB, file lists of 100-600 entries, user lists, news lists, file info) mixed with broadcast traffic (public chat, user-info changes, board posts); in every second run 1-3 further clients vanish mid-frame (their writes are cut short and then fail) while requesting large replies; the client side of every connection records each Write call as one atomic chunk (TCP semantics) and yields or sleeps at random before recording, so writes of different transactions to one client can overlap; at hook-based quiescence the reference decoder re-frames every client's byte stream, a ledger checks that every reply carries the id of an unanswered request sent on that connection, and every always-answered request has exactly one reply. distinct = (clients, senders, board size class, observed multi-chunk frames > 0); non-trivial = run delivered at least one frame larger than the 32 KiB copy buffer",
+		Case:     runCase,
 	})
 }
 
@@ -70,7 +70,24 @@ func runCase(c *core.Case) {
 		}
 		clients = append(clients, cl)
 	}
+	// in half of the runs 1-3 further clients vanish in the middle of a frame: after a seeded number of bytes every
+	// Write to them is cut short and fails. Their own streams are not judged; everybody else's must be unaffected.
+	var flaky []*refclient.Client
+	if c.Index%2 == 1 {
+		for i := 0; i < 1+r.Intn(3); i++ {
+			cl, err := refclient.LoginAs(srv, fmt.Sprintf("10.14.1.%d:1", i+1), "admin", "", fmt.Sprintf("F%d", i))
+			if err != nil {
+				c.Unsure("login: %v", err)
+				return
+			}
+			flaky = append(flaky, cl)
+		}
+	}
 	srv.Quiesce(refclient.Watchdog)
+	for _, cl := range flaky {
+		cl.Conn.SetWriteLimit(1 + r.Intn(150000))
+	}
+	c.Count("clients_vanishing_mid_frame", len(flaky))
 	// from now on every server-side Write to a client yields or sleeps first, so that the per-transaction
 	// sender goroutines really overlap
 	var hookSeed atomic.Uint64
@@ -98,6 +115,23 @@ func runCase(c *core.Case) {
 	}
 	var posts atomic.Int64
 	var wg sync.WaitGroup
+	for fi, cl := range flaky {
+		wg.Add(1)
+		go func(fi int, cl *refclient.Client) {
+			defer wg.Done()
+			rr := core.NewRand(c.Seed, uint64(c.Index), 0xF1A, uint64(fi))
+			for k := 0; k < perSender; k++ {
+				typ, fs := 101, []rc.Field(nil)
+				if rr.Bool() {
+					typ, fs = 200, []rc.Field{rc.F(202, rc.PathS("many"))}
+				}
+				cl.SendRaw(rc.Tran{Type: uint16(typ), ID: cl.NewID(), Fields: fs}.Encode())
+				if rr.Chance(1, 3) {
+					runtime.Gosched()
+				}
+			}
+		}(fi, cl)
+	}
 	for ci, cl := range clients {
 		for s := 0; s < senders; s++ {
 			wg.Add(1)
